@@ -58,13 +58,19 @@ Definition bcast (mpi : bool) (root me v : Z) (k : Z -> prog) : prog :=
 Record hnd := mkH { h_ctx : bool; h_file : bool }.
 Definition h_none : hnd := mkH false false.
 
+(* how sc_io_open judges the fopen of rank 0: `retval = (file == NULL) ? errno : 0` (repair of F-C12j: a successful fopen may
+   leave errno set - glibc's fopen (.., "ab") on a pipe leaves ESPIPE).  `open_judge_old` is the line before the repair
+   (`retval = errno`), used by no program and by no theorem except the refutation `open_old_judge_refuted`. *)
+Definition open_judge (hasfile : bool) (e : Z) : Z := if hasfile then 0 else e.
+Definition open_judge_old (hasfile : bool) (e : Z) : Z := e.
+
 (* sc_io_open *)
 Definition open_prog (c : config) (me amode : Z) (k : Z -> hnd -> prog) : prog :=
   let fin (retval : Z) (hasfile : bool) :=
     bcast (is_mpi c) 0 me retval (fun rv =>
       let cls := errclass c rv in
       if cls =? SUCCESS c then k cls (mkH true hasfile) else k cls h_none) in       (* SC_FREE of the context on error *)
-  if me =? 0 then io K_FOPEN [mode_code (mode_of_amode amode)] (fun r => fin (r1 r) (r0 r =? 1))
+  if me =? 0 then io K_FOPEN [mode_code (mode_of_amode amode)] (fun r => fin (open_judge (r0 r =? 1) (r1 r)) (r0 r =? 1))
   else fin 0 false.
 
 (* sc_io_close *)
@@ -203,6 +209,9 @@ Inductive node := Absent | NoDir | IsDir | File (content : list Z).
 Record stream := mkS { st_mode : fmode; st_pos : Z }.
 (* fault plan: rank, stdio function, how many calls of it that rank has made -> (errno, items transferred first) *)
 Definition plan := Z -> Z -> Z -> option (Z * Z).
+(* an entry (e, NOISE) is "success with errno noise": the call behaves as if there were no entry, but leaves errno = e behind
+   (a legal freedom of the C library); it is not a failed call *)
+Definition NOISE : Z := -1.
 Definition FOPEN : Z := 0.  Definition FWRITE : Z := 1.  Definition FREAD : Z := 2.  Definition FSEEK : Z := 3.
 Definition FTELL : Z := 4.  Definition FFLUSH : Z := 5.  Definition FCLOSE : Z := 6.
 
@@ -230,36 +239,43 @@ Definition put (c : list Z) (pos : Z) (d : list Z) : list Z :=
   firstn (Z.to_nat pos) c ++ repeat 0 (Z.to_nat (pos - len c)) ++ d ++ skipn (Z.to_nat pos + length d) c.
 
 (* --- stdio with injected outcomes: result = (world, ..., return value, errno) *)
+(* fopen without an injected failure; ne = errno it leaves behind when it succeeds *)
+Definition fopen_nat (w1 : world) (m : fmode) (ne : Z) : world * option stream * Z :=
+  let bad e := (note_err w1 e, None, e) in
+  match w_node w1 with
+  | NoDir => bad e_ENOENT
+  | IsDir => match m with MRead => (add_open w1 1, Some (mkS MRead 0), ne) | _ => bad e_EISDIR end
+  | Absent => match m with MRead => bad e_ENOENT | _ => (add_open (set_node w1 (File [])) 1, Some (mkS m 0), ne) end
+  | File c =>
+    match m with
+    | MRead => (add_open w1 1, Some (mkS MRead 0), ne)
+    | MWrite => (add_open (set_node w1 (File [])) 1, Some (mkS MWrite 0), ne)
+    | MAppend => (add_open w1 1, Some (mkS MAppend (len c)), ne)
+    end
+  end.
+
 Definition g_fopen (w : world) (q : Z) (m : fmode) : world * option stream * Z :=
   let '(w1, f) := take w q FOPEN in
   match f with
-  | Some (e, _) => (note_err w1 e, None, e)
-  | None =>
-    let bad e := (note_err w1 e, None, e) in
-    match w_node w1 with
-    | NoDir => bad e_ENOENT
-    | IsDir => match m with MRead => (add_open w1 1, Some (mkS MRead 0), 0) | _ => bad e_EISDIR end
-    | Absent => match m with MRead => bad e_ENOENT | _ => (add_open (set_node w1 (File [])) 1, Some (mkS m 0), 0) end
-    | File c =>
-      match m with
-      | MRead => (add_open w1 1, Some (mkS MRead 0), 0)
-      | MWrite => (add_open (set_node w1 (File [])) 1, Some (mkS MWrite 0), 0)
-      | MAppend => (add_open w1 1, Some (mkS MAppend (len c)), 0)
-      end
-    end
+  | Some (e, sh) => if sh =? NOISE then fopen_nat w1 m e else (note_err w1 e, None, e)
+  | None => fopen_nat w1 m 0
   end.
+
+(* the errno that makes a transfer a failed call: not the noise of a complete one *)
+Definition failed_errno (f : option (Z * Z)) : Z :=
+  match f with Some (e, sh) => if sh =? NOISE then 0 else e | None => 0 end.
 
 Definition g_fwrite (w : world) (q : Z) (s : stream) (size count : Z) (data : payload) : world * stream * Z * Z :=
   let '(w1, f) := take w q FWRITE in
   match st_mode s with
   | MRead => (note_err w1 e_EBADF, s, 0, e_EBADF)                       (* stream not open for writing *)
   | _ =>
-    let m := match f with Some (_, sh) => Z.max 0 (Z.min sh count) | None => count end in
+    let m := match f with Some (_, sh) => if sh =? NOISE then count else Z.max 0 (Z.min sh count) | None => count end in
     let e := match f with Some (e, _) => e | None => 0 end in
     let d := firstn (Z.to_nat (size * m)) data in
     let c := content w1 in
     let pos := match st_mode s with MAppend => len c | _ => st_pos s end in
-    (note_err (set_node w1 (File (put c pos d))) e, mkS (st_mode s) (pos + len d), m, e)
+    (note_err (set_node w1 (File (put c pos d))) (failed_errno f), mkS (st_mode s) (pos + len d), m, e)
   end.
 
 (* result additionally: the bytes stored into the buffer *)
@@ -267,33 +283,37 @@ Definition g_fread (w : world) (q : Z) (s : stream) (size count : Z) : world * s
   let '(w1, f) := take w q FREAD in
   match st_mode s with
   | MRead =>
-    let m := match f with Some (_, sh) => Z.max 0 (Z.min sh count) | None => count end in
+    let m := match f with Some (_, sh) => if sh =? NOISE then count else Z.max 0 (Z.min sh count) | None => count end in
     let e := match f with Some (e, _) => e | None => 0 end in
     let avail := firstn (Z.to_nat (size * m)) (skipn (Z.to_nat (st_pos s)) (content w1)) in
     let n := len avail / size in                                       (* whole elements; a trailing partial one is not reported *)
-    (note_err w1 e, mkS MRead (st_pos s + len avail), n, e, firstn (Z.to_nat (size * n)) avail)
+    (note_err w1 (failed_errno f), mkS MRead (st_pos s + len avail), n, e, firstn (Z.to_nat (size * n)) avail)
   | _ => (note_err w1 e_EBADF, s, 0, e_EBADF, [])                        (* stream not open for reading *)
   end.
 
 Definition g_fseek (w : world) (q : Z) (s : stream) (off : Z) : world * stream * Z * Z :=
   let '(w1, f) := take w q FSEEK in
+  let nat (ne : Z) := if off <? 0 then (note_err w1 e_EINVAL, s, -1, e_EINVAL) else (w1, mkS (st_mode s) off, 0, ne) in
   match f with
-  | Some (e, _) => (note_err w1 e, s, -1, e)
-  | None => if off <? 0 then (note_err w1 e_EINVAL, s, -1, e_EINVAL) else (w1, mkS (st_mode s) off, 0, 0)
+  | Some (e, sh) => if sh =? NOISE then nat e else (note_err w1 e, s, -1, e)
+  | None => nat 0
   end.
 
 Definition g_ftell (w : world) (q : Z) (s : stream) : world * Z * Z :=
   let '(w1, f) := take w q FTELL in
-  match f with Some (e, _) => (note_err w1 e, -1, e) | None => (w1, st_pos s, 0) end.
+  match f with Some (e, sh) => if sh =? NOISE then (w1, st_pos s, e) else (note_err w1 e, -1, e) | None => (w1, st_pos s, 0) end.
 
 Definition g_fflush (w : world) (q : Z) : world * Z * Z :=
   let '(w1, f) := take w q FFLUSH in
-  match f with Some (e, _) => (note_err w1 e, -1, e) | None => (w1, 0, 0) end.
+  match f with Some (e, sh) => if sh =? NOISE then (w1, 0, e) else (note_err w1 e, -1, e) | None => (w1, 0, 0) end.
 
 (* the stream is gone in either case *)
 Definition g_fclose (w : world) (q : Z) : world * Z * Z :=
   let '(w1, f) := take w q FCLOSE in
-  match f with Some (e, _) => (note_err (add_open w1 (-1)) e, -1, e) | None => (add_open w1 (-1), 0, 0) end.
+  match f with
+  | Some (e, sh) => if sh =? NOISE then (add_open w1 (-1), 0, e) else (note_err (add_open w1 (-1)) e, -1, e)
+  | None => (add_open w1 (-1), 0, 0)
+  end.
 
 (* --- the wrapper functions on the global state; None = the process group aborts *)
 Record gstate := mkG { g_w : world; g_s0 : option stream; g_ctx : bool }.
@@ -301,13 +321,15 @@ Definition ranks (P : Z) : list Z := map Z.of_nat (seq 0 (Z.to_nat P)).
 (* MPI_Bcast: every rank obtains the root's value *)
 Definition bcast_all (P v : Z) : list Z := map (fun _ => v) (ranks P).
 
-(* sc_io_open: per rank the class it returns *)
-Definition g_open (c : config) (P : Z) (g : gstate) (amode : Z) : gstate * list Z :=
+(* sc_io_open: per rank the class it returns; `judge` = how the result of fopen becomes the broadcast value (`open_judge`) *)
+Definition g_open_with (judge : bool -> Z -> Z) (c : config) (P : Z) (g : gstate) (amode : Z) : gstate * list Z :=
   let w0 := add_ledger (g_w g) P in
-  let '(w1, so, e) := g_fopen w0 0 (mode_of_amode amode) in
+  let '(w1, so, e0) := g_fopen w0 0 (mode_of_amode amode) in
+  let e := judge (match so with Some _ => true | None => false end) e0 in
   let cls := map (errclass c) (bcast_all P e) in
   if errclass c e =? SUCCESS c then (mkG w1 so true, cls)
   else (mkG (add_ledger w1 (- P)) None false, cls).
+Definition g_open : config -> Z -> gstate -> Z -> gstate * list Z := g_open_with open_judge.
 
 Definition g_close (c : config) (P : Z) (g : gstate) : option (gstate * list Z) :=
   match g_s0 g with
